@@ -203,11 +203,13 @@ Print Assumptions C18_no_panic_step.
 
 (** the row arithmetic of the guards is the model's wherever the model is faithful: for W >= 1 and
     a frame whose row count does not saturate, the count the guard tests at draw_target.rs:630 is
-    the last_line_count [Draw.draw_to_term] returns; and for EVERY width a draw reports at most
+    the last_line_count [Draw.draw_to_term] returns (since fix 7d42cff the incoming count is capped at
+    the height first: [N.min n H]; the guard model SysPanic.dt_* still computes with the count it is
+    given, i.e. it is evaluated at the capped count here); and for EVERY width a draw reports at most
     one screen more than it was given *)
 Theorem C18_guard_rows_are_the_models : forall ls n al below W H,
   1 <= W -> H < USIZE_MAX -> visual_line_count ls W <= USIZE_MAX ->
-  dt_count_rs ls n al W H = snd (fst (draw_to_term ls n al below W H)).
+  dt_count_rs ls (N.min n H) al W H = snd (fst (draw_to_term ls n al below W H)).
 Proof. exact dt_count_rs_model. Qed.
 Print Assumptions C18_guard_rows_are_the_models.
 
